@@ -16,6 +16,7 @@ structure DriverState where
   devgas : DevGas.State := default
   logidx : LogIndex.State := {}
   evmtx : EvmTx.State × EvmTx.View := default
+  sdb : SDB.S := {}
 
 def splitArgs (line : String) : List String :=
   (line.trimAscii.toString.splitOn " ").filter (· ≠ "")
@@ -45,6 +46,9 @@ def stepLine (st : DriverState) (line : String) : DriverState × String :=
   | "evmtx" :: args =>
     let (s', out) := EvmTx.step st.evmtx args
     ({ st with evmtx := s' }, out)
+  | "sdb" :: args =>
+    let (s', out) := SDB.step {} st.sdb args
+    ({ st with sdb := s' }, out)
   | "oracle" :: args => (st, Oracle.step args)
   | "infl" :: args =>
     let (s', out) := Inflation.step st.infl args
